@@ -75,7 +75,7 @@ Proof.
   eexists. apply E_SeqX; [apply E_RelFault; reflexivity | discriminate].
 Qed.
 Example wait_prog : program :=
-  [("wait"%string, (Seqs [Unlock "l"; Lock "l"], mkSum [] [] [((MW, "l"%string), 1%Z)] [] false));
+  [("wait"%string, (Seqs [Unlock "l"; Lock "l"], mkSum [] [] [((MW, "l"%string), 1%Z)] [] false []));
    ("good"%string, (Seqs [Lock "l"; Call "wait" (mkS [] []); Unlock "l"], neutral));
    ("bad"%string, (Call "wait" (mkS [] []), neutral))].
 Example wait_accepted : map (balanced wait_prog) ["wait"; "good"; "bad"]%string = [true; true; false].
@@ -83,8 +83,8 @@ Proof. vm_compute. reflexivity. Qed.
 (* a deferred Unlock that would run on a panic raised while the mutex is
    released is rejected; the same panic before the release is accepted *)
 Example panic_prog : program :=
-  [("p1"%string, (Seqs [Lock "l"; Defer (Unlock "l"); Unlock "l"; Alts [Panic; Skip]; Lock "l"], mkSum [] [] [] [] true));
-   ("p2"%string, (Seqs [Lock "l"; Defer (Unlock "l"); Alts [Panic; Skip]; Unlock "l"; Lock "l"], mkSum [] [] [] [] true))].
+  [("p1"%string, (Seqs [Lock "l"; Defer (Unlock "l"); Unlock "l"; Alts [Panic; Skip]; Lock "l"], mkSum [] [] [] [] true []));
+   ("p2"%string, (Seqs [Lock "l"; Defer (Unlock "l"); Alts [Panic; Skip]; Unlock "l"; Lock "l"], mkSum [] [] [] [] true []))].
 Example panic_cases : map (balanced panic_prog) ["p1"; "p2"]%string = [false; true].
 Proof. vm_compute. reflexivity. Qed.
 
@@ -157,6 +157,34 @@ Theorem backoff_state_reachable :
   exists s, reachable s /\ waiting s 0 2 /\ owner s 1 = None /\ owner s 2 = Some 1.
 Proof. exact demo_reaches_block. Qed.
 Print Assumptions backoff_state_reachable.
+
+(* Atomic sections (check-then-act under one lock, e.g. OpenedFile.Lock:
+   locks.Test -> locks.Set under of.locksLock held exclusively): if the
+   program passes and [atomic_section prog f e] holds, [e] is declared for [f]
+   and no run of [f] faults -- where (Checker: mark_fault_iff, mark_ok_holds,
+   mark_mon_opens, rel_breaks_open, call_breaks_open) an opening or closing
+   event without the mutex held, and a release of the mutex or a call of a
+   function whose summary mentions it while the section is open, are faults. *)
+Theorem atomic_section_sound : forall prog,
+  forallb (balanced prog) (map fst prog) = true ->
+  forall f e, atomic_section prog f e = true ->
+  exists body sm,
+    assoc f prog = Some (body, sm) /\ In e (s_atomic sm) /\
+    forall o fr, exec prog (ctx_of sm) body frame0 o fr -> o <> OFault.
+Proof. exact Checker.atomic_section_sound. Qed.
+Print Assumptions atomic_section_sound.
+
+(* Non-vacuity: test-then-set under one exclusive hold is accepted; the test
+   under a read lock that is dropped before the write lock is taken (the
+   shape of seeded/C20b) is rejected, as is unlock/re-lock of the exclusive
+   lock in between. *)
+Example atomic_prog : program :=
+  let e := [mkAsec "Test" (Some "Set") "m" false] in
+  [("ok"%string, (Seqs [Lock "m"; Defer (Unlock "m"); Mark "Test"; Alts [Return; Skip]; Mark "Set"], mkSum [] [] [] [] false e));
+   ("rw"%string, (Seqs [RLock "m"; Mark "Test"; Alts [Seqs [RUnlock "m"; Return]; Skip]; RUnlock "m"; Lock "m"; Defer (Unlock "m"); Mark "Set"], mkSum [] [] [] [] false e));
+   ("gap"%string, (Seqs [Lock "m"; Mark "Test"; Unlock "m"; Lock "m"; Mark "Set"; Unlock "m"], mkSum [] [] [] [] false e))].
+Example atomic_cases : map (fun f => atomic_section atomic_prog f (mkAsec "Test" (Some "Set") "m" false)) ["ok"; "rw"; "gap"]%string = [true; false; false].
+Proof. vm_compute. reflexivity. Qed.
 
 (* ---- the sequential LockPile runner satisfies the monitor (Locks/PileRunner.v) ---- *)
 From VF Require Import Common.Verdict Locks.Corr Locks.PileRunner.
